@@ -17,7 +17,7 @@ ASSUMPTIONS = ["the one-nanosecond-per-segment float slack (interpretation I1 of
 Q_IN, Q_OUT = "C11q_in", "C11q_out"
 Q_VERDICT = "fun i o => C11q_verdict cfg i o"
 Q_SPEC = "fun i o => C01q_spec cfg i o"
-C_IN = "((bool * Z * list (Z * Z)) * %s)" % PARSE_IN
+C_IN = "((bool * Z * list (Z * Z) * option (list Z)) * %s)" % PARSE_IN
 C_VERDICT = "fun i o => parse_verdict cfg (snd i) o"
 C_SPEC = "fun i o => C01c_spec (fst i) o"
 
@@ -104,8 +104,15 @@ def make_c(R, tm, rng):
         sync = [(rng.choice(["", " ", "\u3000", "\t"]) + respell_digits(rng, l) + ("" if " = A " in l else rng.choice(["", "\u3000"]))) if rng.random() < 0.5 else l for l in sync]
     text = vary_layout(rng, chart_text(res=R, sync=sync, events=ev, tracks=[(rng.choice(["ExpertSingle", "HardDrums", "EasyGHLBass"]), body)]), p=0.3)
     ch, exc, out = parse_case(text)
-    return dict(case=dict(kind="chart", R=R, tm=[list(x) for x in tm], text=text),
-                in_term="((true, %s, %s), %s)" % (coq_Z(R), coq_list("(%s, %s)" % (coq_Z(t), coq_Z(n)) for t, n in tm), parse_in_term(text)),
+    # where each note ends, as WRITTEN: its tick plus the longest length among its lane / open lines (flag lines do not count)
+    by_tick = {}
+    for l in body:
+        if " = N " in l:
+            t_, i_, ln_ = l.replace(" = N", "").split(" ")
+            by_tick.setdefault(int(t_), []).append((int(i_), int(ln_)))
+    ends = [t_ + max([ln_ for i_, ln_ in v if i_ <= 4 or i_ == 7] or [0]) for t_, v in sorted(by_tick.items())]
+    return dict(case=dict(kind="chart", R=R, tm=[list(x) for x in tm], text=text, ends=ends),
+                in_term="((true, %s, %s, (Some %s)), %s)" % (coq_Z(R), coq_list("(%s, %s)" % (coq_Z(t), coq_Z(n)) for t, n in tm), coq_list(coq_Z(x) for x in ends), parse_in_term(text)),
                 out_term=out, nontrivial=len(tm) >= 2,
                 tags=["c:segments=%d" % min(len(tm), 10), "c:impl_error" if exc is not None else "c:impl_ok"], signature="C01c:" + key_of(text))
 
@@ -113,7 +120,8 @@ def make_c(R, tm, rng):
 def remake_c(c):
     ch, exc, out = parse_case(c["text"])
     tm = [tuple(x) for x in c["tm"]]
-    return dict(case=c, in_term="((true, %s, %s), %s)" % (coq_Z(c["R"]), coq_list("(%s, %s)" % (coq_Z(t), coq_Z(n)) for t, n in tm), parse_in_term(c["text"])),
+    ends = "None" if c.get("ends") is None else "(Some %s)" % coq_list(coq_Z(x) for x in c["ends"])
+    return dict(case=c, in_term="((true, %s, %s, %s), %s)" % (coq_Z(c["R"]), coq_list("(%s, %s)" % (coq_Z(t), coq_Z(n)) for t, n in tm), ends, parse_in_term(c["text"])),
                 out_term=out, nontrivial=True, tags=["c:replay"], signature="C01c:" + key_of(c["text"]))
 
 
